@@ -5,7 +5,7 @@ Decides:
                     replace('<', "&lt;") and replace('>', "&gt;").
  G html tags        per Block variant, the tags opened by the BlockStart arm are the tags closed by the BlockEnd arm (the
                     ItemBody dd/li choice tests the same stack slot on both sides); change_style closes i, b, tt and opens
-                    tt, b, i (reverse nesting), each guarded by its own flag.
+                    tt, b, i (reverse nesting), each guarded by its own flag; stack discipline of all 64 transitions (abstract walk).
  P token pairing    every function that emits BlockStart(b) emits BlockEnd(b) on every path to its return (listed exception:
                     the GroupStart / GroupEnd and AnywhereStart / AnywhereStop arm pairs of write_help_item, whose effects are
                     complementary); per function the multisets of started and ended blocks agree.
@@ -43,7 +43,7 @@ from parsers import *
 LEVEL = 'other'
 EXPLANATION = __doc__
 ASSUMPTIONS = ['roff treats a line as a request only if it starts with `.` or `\'`; HTML text needs only < and > escaped outside attributes']
-FLOORS = {'T.html-taint': 2, 'G.html-tags': 14, 'P.token-pairing': 15, 'E.roff-escaper': 6, 'U.unescaped': 12, 'S.sections': 10, 'C.capture': 4, 'K.cursor': 3, 'K.skip-pairing': 1}
+FLOORS = {'T.html-taint': 2, 'G.html-tags': 15, 'P.token-pairing': 15, 'E.roff-escaper': 6, 'U.unescaped': 12, 'S.sections': 10, 'C.capture': 4, 'K.cursor': 3, 'K.skip-pairing': 1}
 
 def run(ctx):
     cfgs = ['doc', 'all'] if ctx.tier == 'quick' else ['doc', 'all', 'autocomplete,docgen', 'docgen,dull-color']
@@ -283,6 +283,40 @@ def html_tags(ctx, cfg, fs):
         good &= g
     good &= len(guards['close']) == 1 and len(guards['open']) == 1 and guards['close'] != guards['open']
     ctx.ob('G.html-tags', 'change_style:guards', good, 'every closing tag is guarded by the flag of the same name of the style in force (%s) and every opening tag by that of the style wanted (%s): %s' % (sorted(guards['close']), sorted(guards['open']), good), where=cs.where(), cfg=cfg)
+
+    # stack discipline: for every pair (style in force, style wanted) - 8 x 8 flag combinations, walked abstractly with the flags of
+    # both parameters known - the tags written are well nested against the tags the style in force left open (tt > b > i), and leave
+    # exactly the tags of the style wanted open: a tag kept open across the transition is fine, closing an outer tag under an open inner one is not
+    import itertools
+    params = {cs.name_of(i): i for i in range(1, cs.arg_count + 1)}
+    pc = [params.get(x) for x in sorted(guards['close'])]; po = [params.get(x) for x in sorted(guards['open'])]
+    if good and len(pc) == 1 and len(po) == 1 and pc[0] and po[0]:
+        order = ['tt', 'b', 'i']
+        bad = []; n = 0
+        for cf in itertools.product([False, True], repeat=3):
+            for nf in itertools.product([False, True], repeat=3):
+                store = {pc[0]: ('agg', 'buffer::html::Styles', None, [('c', x) for x in cf]), po[0]: ('agg', 'buffer::html::Styles', None, [('c', x) for x in nf])}
+                w = Walker(cs, call_model=lambda w, c, st: ('callres', c.name, c.bb), max_paths=64, max_visits=1)
+                for pth in w.run(store=store):
+                    if pth.end != 'return':
+                        continue
+                    n += 1
+                    stack = [t for t, f in zip(order, cf) if f]; fine = True
+                    for (_, c) in pth.calls:
+                        if not c.is_(r'^std::string::String::push_str$'): continue
+                        tags = [r.what for r in provenance(cs, c.args[1], c.bb, 'term') if r.kind == 'const']
+                        if len(tags) != 1: fine = False; break
+                        t = tags[0]
+                        if t.startswith('</'):
+                            if not stack or stack[-1] != t[2:-1]: fine = False; break
+                            stack.pop()
+                        else:
+                            stack.append(t[1:-1])
+                    if fine and stack != [t for t, f in zip(order, nf) if f]: fine = False
+                    if not fine: bad.append('%s->%s' % (''.join('mbi'[i] for i in range(3) if cf[i]) or '-', ''.join('mbi'[i] for i in range(3) if nf[i]) or '-'))
+        if n < 64:
+            raise Broken('change_style: abstract walk decided %d of 64 transitions' % n)
+        ctx.ob('G.html-tags', 'change_style:stack-discipline', not bad, 'over %d walked transitions (flags of both styles known) the tags written are well nested against the open tags tt > b > i and leave the wanted style open; offending transitions: %s' % (n, sorted(set(bad)) or 'none'), where=cs.where(), cfg=cfg)
 
 PAIR_EXCEPTIONS = {'meta_help::write_help_item': 'GroupStart opens Block+DefinitionList that GroupEnd closes; the arms are emitted in matched pairs by append_meta (G.group-flag in C04)'}
 
